@@ -1,29 +1,12 @@
 ---- MODULE UriModelImpl ----
 (* C30 I-layer: what AnyP::Uri::parse decides TODAY for the "simple" subset of absolute-form targets (one authority
    without userinfo oddities, reg-name host containing a letter g-w, y, z / "_" / "-" so that it is certainly not numeric),
-   including the named deviation
-     D1 (F10) the port of a non-CONNECT target is read with atoi(): sign, trailing bytes, and wrap-around modulo 2^32
+   The port of a non-CONNECT target is read as decimal digits only (F10 repaired in e324c55: no sign, no trailing bytes,
+   no wrap-around; an empty port and values above 65535 are rejected, leading zeros are accepted).
    Outside the simple subset the layer says nothing (TRUE). *)
 EXTENDS UriModel
-\* (int) strtol(text): value modulo 2^32 kept as two 16-bit limbs <<hi, lo>>
-RECURSIVE Trunc32(_, _, _)
-Trunc32(t, k, acc) == IF k > Len(t) \/ ~IsDigit(t[k]) THEN acc
-                      ELSE LET lo == acc[2] * 10 + (t[k] - 48)
-                               hi == acc[1] * 10 + lo \div 65536 IN
-                           Trunc32(t, k + 1, <<hi % 65536, lo % 65536>>)
-RECURSIVE DigitRun(_, _)
-DigitRun(t, k) == IF k <= Len(t) /\ IsDigit(t[k]) THEN 1 + DigitRun(t, k + 1) ELSE 0
-\* port number atoi() yields, or 0 when the result is outside 1..65535 (rejected either way)
-Atoi(t) ==
-  LET sg == IF Len(t) > 0 /\ t[1] \in {43, 45} THEN 1 ELSE 0
-      neg == Len(t) > 0 /\ t[1] = 45
-      n == DigitRun(t, sg + 1) IN
-  IF n = 0 THEN 0 ELSE
-  LET w == WVal(SubSeq(t, sg + 1, sg + n))
-      a == Trunc32(t, sg + 1, <<0, 0>>) IN
-  IF ~Leq(w, Max63) THEN 0                                              \* strtol saturates: (int) LONG_MAX = -1, (int) LONG_MIN = 0
-  ELSE IF ~neg THEN (IF a[1] = 0 THEN a[2] ELSE 0)
-  ELSE (IF a[1] = 65535 /\ a[2] > 0 THEN 65536 - a[2] ELSE 0)          \* -(v) mod 2^32 in 1..65535
+\* port of a non-CONNECT target: decimal digits only (e324c55); 0 stands for "rejected" (no digits, other bytes, > 65535)
+NewPort(t) == IF AllDigits(t) /\ Leq(WVal(t), Port65535) THEN W2N(WVal(t)) ELSE 0
 NameChar(b, chk) == (b >= 97 /\ b <= 122) \/ IsDigit(b) \/ b \in {45, 46} \/ (b = 95 /\ ~chk)
 \* a letter that cannot occur in a numeric address (not a-f, not the x of 0x..), "_" or "-"
 SurelyName(h) == \E i \in 1..Len(h) : (h[i] >= 103 /\ h[i] <= 122 /\ h[i] # 120) \/ h[i] \in {45, 95}
@@ -46,7 +29,7 @@ ISimple(u, chk) ==
      \/ (\E i \in 1..Len(auth) : auth[i] \in {64, 91, 93, 37} \/ Odd(auth[i]) \/ auth[i] >= 128)
      \/ (\E i \in 1..Len(tail) : Odd(tail[i])) \/ Len(u) > 200
   THEN no ELSE
-  LET port == IF c = 0 THEN DefaultPort(scheme) ELSE Atoi(pt)
+  LET port == IF c = 0 THEN DefaultPort(scheme) ELSE NewPort(pt)
       h == StripDots(h0)
       bad == (chk /\ \E i \in 1..Len(h0) : ~NameChar(h0[i], TRUE)) \/ ~NoDotDot(h, 1) \/ (Len(h) > 0 /\ h[1] = 46) \/ port = 0 IN
   [simple |-> TRUE, ok |-> ~bad, host |-> h, port |-> port]
